@@ -1,3 +1,4 @@
+import Swat4.Gen.Facts
 import Swat4.Model.QueueSys
 import Swat4.Properties.C10
 import Swat4.Lemmas.QueueSys
@@ -804,5 +805,11 @@ theorem lost_if_dies_done :
   simp only [Option.map_some, Option.some.injEq] at hdead
   rw [hd] at hdead
   cases hdead
+
+/-- **Item ids (regenerated fact).**  `conservation`, `at_most_once` and `ids_fresh` assume that every enqueued probe is stored
+under an id no other item has.  In the code that is `itemID := uuid.NewString()` in `probes.go` `enqueue` — a full random
+UUID (122 random bits); the expression is read from the source on every run.  A shortened or derived id (collisions after
+~2^(bits/2) probes: one payload overwrites another, one probe silently disappears) changes it and breaks this theorem. -/
+theorem facts_item_id : Facts.probeItemIDExprs = ["uuid.NewString()"] := by decide
 
 end Swat4.C12
